@@ -99,9 +99,17 @@ def godebug(*parts):
     return ",".join(p for p in parts if p)
 
 
+def sm3_tier(label):
+    """GODEBUG string of the SM3 tier with that label in cfgs.K_SM3 (picked by label, not by position)"""
+    for c in cfgs.K_SM3:
+        if c["label"] == label:
+            return c["env"].get("GODEBUG")
+    raise core.Infra("cfgs.K_SM3 has no entry labelled %r" % label)
+
+
 def record_cfgs(quick):
     """K_EC x SM3 tiers (GODEBUG settings combined into one string), one SM4 tier, the pure-Go build."""
-    sm3 = [("", None), ("+sm3-avx", cfgs.K_SM3[1]["env"]["GODEBUG"]), ("+sm3-scalar", cfgs.K_SM3[2]["env"]["GODEBUG"])]
+    sm3 = [("", None), ("+sm3-avx", sm3_tier("avx(no avx2)")), ("+sm3-scalar", sm3_tier("scalar-asm"))]
     out = []
     for c in cfgs.K_EC:
         if "purego" in c["tags"]:
@@ -110,7 +118,7 @@ def record_cfgs(quick):
         for suffix, gd in sm3:
             g = godebug(c["env"].get("GODEBUG"), gd)
             out.append(cfgs.c(c["label"] + suffix, g or None))
-    out.append(cfgs.c("no-aes(sm4 go tables)+sm3-scalar", godebug("cpu.aes=off", cfgs.K_SM3[2]["env"]["GODEBUG"])))
+    out.append(cfgs.c("no-aes(sm4 go tables)+sm3-ssse3", godebug("cpu.aes=off", sm3_tier("ssse3(no avx)"))))
     return out
 
 
@@ -119,7 +127,7 @@ def replay_cfgs():
     for c in cfgs.K_EC:
         out.append(c)
         if "purego" not in c["tags"]:
-            out.append(cfgs.c(c["label"] + "+sm3-scalar", godebug(c["env"].get("GODEBUG"), cfgs.K_SM3[2]["env"]["GODEBUG"])))
+            out.append(cfgs.c(c["label"] + "+sm3-scalar", godebug(c["env"].get("GODEBUG"), sm3_tier("scalar-asm"))))
     return out
 
 
